@@ -1,3 +1,4 @@
+import AquaVerif.Proofs.Session
 import AquaVerif.Proofs.Clock
 import AquaVerif.Proofs.ClockRun
 /-
@@ -49,5 +50,40 @@ theorem unfinished_until_termination {k k2 : Nat} {ks : List Nat} {s₀ s1 s : S
 strictly increasing season order at every reachable state (monotone history). -/
 theorem summary_only_grows_in_order (hw : WF c) {s : St} (hr : Reach c ev s) :
     s.summary.Pairwise (fun a b => a.1 < b.1) := summary_sorted hw hr
+
+/-! ### the public API as a state machine (`Model/Session.lean`, replayed by the `session` tie on real `AquaCropModel` objects) -/
+
+section api
+open Aqua.Clock Aqua.Session
+/-- **API level.** A new `AquaCropModel`, first call `run_model(num_steps=k₀)`, then any calls
+`run_model(num_steps=kᵢ, initialize_model=False)` (all `kᵢ ≥ 1`, no `process_outputs`) whose step
+counts add up to at least the window length: the calls return `True` until the run has ended
+(`m + 1` of them), every later call raises the table-write `ValueError` (`p` of them), and the
+object ends with the flags, clock, daily rows, summary and table kind of one
+`run_model(till_termination=True)` — identical state if no call was made after the end. -/
+theorem api_partition_equals_one_run {c : Cfg} (hw : WF c) (ev : Ev) {s₀ : St}
+    (hi : Clock.init c = .ok s₀) (k₀ : Nat) (ks : List Nat) (hk₀ : 1 ≤ k₀)
+    (hks : ∀ k ∈ ks, 1 ≤ k) (htot : c.n ≤ k₀ + ks.sum) :
+    ∃ sT m p, runTill c ev s₀ = .ok sT ∧ sT.finished = true ∧
+      session c ev [.run 0 true true false] = (ofClock sT, [.retTrue]) ∧
+      (session c ev (.run k₀ false true false :: ks.map stepCall)).2 =
+        List.replicate (m + 1) .retTrue ++ List.replicate p (tw c) ∧
+      VisOf (session c ev (.run k₀ false true false :: ks.map stepCall)).1 sT ∧
+      (p = 0 → (session c ev (.run k₀ false true false :: ks.map stepCall)).1 = ofClock sT) :=
+  session_partition hw ev hi k₀ ks hk₀ hks htot
+
+/-- what a call after the end does: raises, changes nothing observable -/
+theorem api_call_after_end {c : Cfg} {ev : Ev} (hw : WF c) {st : St} (hr : Reach c ev st)
+    (hf : st.finished = true) {s : SSt} (hv : VisOf s st) (k : Nat) (hk : 1 ≤ k) :
+    (run c ev k false false false s).2 = tw c ∧ VisOf (run c ev k false false false s).1 st :=
+  run_after_termination hw hr hf hv k hk
+
+/-- a `num_steps = k` call performs `min k (days to termination)` days, harvests or not -/
+theorem api_steps_performed {c : Cfg} (hw : WF c) (ev : Ev) {st sT : St} (hr : Reach c ev st)
+    (hf : st.finished = false) {f : Nat} (hT : runTillF c ev f st = .ok sT) (k : Nat) (hk : 1 ≤ k) :
+    ∃ st', step c ev (stepCall k) (ofClock st) = (ofClock st', .retTrue) ∧
+      st'.rowsRev.length = st.rowsRev.length + min k (sT.rowsRev.length - st.rowsRev.length) :=
+  harvest_does_not_stop_stepping hw ev hr hf hT k hk
+end api
 
 end Aqua.C09
